@@ -277,4 +277,19 @@ def rule_r7(ctx):
     return rr
 
 
-RULES = [("C11-R1", rule_r1), ("C11-R2", rule_r2), ("C11-R3", rule_r3), ("C11-R4", rule_r4), ("C11-R5", rule_r5), ("C11-R6", rule_r6), ("C11-R7", rule_r7)]
+def rule_c12r5(ctx):
+    """What is stored for a decorated __init_subclass__/__class_getitem__ (shared rule C12-R5)."""
+    from .c12 import rule_r5 as r
+
+    return r(ctx)
+
+
+def rule_c01r2(ctx):
+    """`return` is lowered inside the option-dependent `if` templates: the option siblings must agree
+    (shared rule C01-R2), or a call returns a different value under one option."""
+    from .c01 import rule_r2 as r
+
+    return r(ctx)
+
+
+RULES = [("C11-R1", rule_r1), ("C11-R2", rule_r2), ("C11-R3", rule_r3), ("C11-R4", rule_r4), ("C11-R5", rule_r5), ("C11-R6", rule_r6), ("C11-R7", rule_r7), ("C12-R5", rule_c12r5), ("C01-R2", rule_c01r2)]
